@@ -368,7 +368,15 @@ void op_log(World& W, int wi, bool in_burst, int ypoint, int logger_override = -
         case SKind::Normal:
         case SKind::Backtrace:
         case SKind::BtNoInit:
-          xp->res_accepted = lg->template log_statement<false, false>(quill::LogLevel::None, &kMd[level], wid, seq, pad);
+          if constexpr (kDropping)
+          {
+            char const* cpad = pad.c_str();
+            xp->res_accepted = lg->template log_statement<false, false>(quill::LogLevel::None, &kMd[level], wid, seq, cpad);
+          }
+          else
+          {
+            xp->res_accepted = lg->template log_statement<false, false>(quill::LogLevel::None, &kMd[level], wid, seq, pad);
+          }
           break;
         case SKind::BadTemplate:
           xp->res_accepted = lg->template log_statement<false, false>(quill::LogLevel::None, &kMdBadTemplate, wid, seq, pad);
